@@ -376,7 +376,7 @@ class Ref:
             if p >= n:
                 return None
             c, l = dec_at(s, p)
-            if c == 10 and arg[1:2] == b'^':
+            if c == 10:            # fix 86d0c64: under REG_NEWLINE no bracket expression matches the newline
                 return None
             return p + l if brk_in(arg[1:], c, self.ic) else None
         if kind == 'beg':
